@@ -64,3 +64,32 @@ for k in (0, 1):
                  then_call=['x'], floor=1, shards=(12 if k == 1 else 1),
                  dropped=['decorator lru_cache: the function is pure, caching is transparent (assumed)'],
                  note=f'requirement with exactly {k} comparators after canonicalisation (loop count fixed, all values symbolic)')
+
+# ---- cfg(): evaluator.  Structural induction over the finite IR tree: the generic contract is the induction
+# hypothesis used at recursive calls; each node class is a verified variant whose postcondition is the defining
+# equation of the denotation `sem` for that class.
+from pyvc.api import Obj, Dict
+C = 'mesonbuild/cargo/cfg.py'
+CFGS = Dict(Str, Str)
+IdentS = Struct('Identifier', 'mesonbuild.cargo.cfg:Identifier', value=Str)
+StringS = Struct('String', 'mesonbuild.cargo.cfg:String', value=Str)
+REG.contract('C20', C, '_eval_cfg', variant='Identifier', params={'ir': IdentS, 'cfgs': CFGS},
+             ensures=['result == (ir.value in cfgs)'], floor=1)
+REG.contract('C20', C, '_eval_cfg', variant='Equal',
+             params={'ir': Struct('Equal', 'mesonbuild.cargo.cfg:Equal', lhs=IdentS, rhs=StringS), 'cfgs': CFGS},
+             ensures=['result == (ir.lhs.value in cfgs and cfgs[ir.lhs.value] == ir.rhs.value)'], floor=1)
+REG.contract('C20', C, '_eval_cfg', variant='Not',
+             params={'ir': Struct('Not', 'mesonbuild.cargo.cfg:Not', value=Obj), 'cfgs': CFGS},
+             ensures=['result == (not sem(ir.value, cfgs))'], floor=1)
+REG.contract('C20', C, '_eval_cfg', variant='Any',
+             params={'ir': Struct('Any', 'mesonbuild.cargo.cfg:Any', args=List(Obj)), 'cfgs': CFGS},
+             ensures=['result == exists(Int, lambda j: 0 <= j and j < len(ir.args) and sem(ir.args[j], cfgs))'], floor=1)
+REG.contract('C20', C, '_eval_cfg', variant='All',
+             params={'ir': Struct('All', 'mesonbuild.cargo.cfg:All', args=List(Obj)), 'cfgs': CFGS},
+             ensures=['result == forall(Int, lambda j: implies(0 <= j and j < len(ir.args), sem(ir.args[j], cfgs)))'], floor=1)
+REG.contract('C20', C, '_eval_cfg', variant='other',
+             params={'ir': Struct('IR', 'mesonbuild.cargo.cfg:IR'), 'cfgs': CFGS},
+             raises={'MesonBugException': 'True'}, floor=1, note='a node of no known class is an internal error, never a value')
+REG.contract('C20', C, '_eval_cfg', trusted=True, params={'ir': Obj, 'cfgs': CFGS},
+             ensures=['result == sem(ir, cfgs)'], pure_expr='sem(ir, cfgs)', result=Bool,
+             note='induction hypothesis of the structural induction over the IR tree (children are strictly smaller; IR trees built by the parser are finite)')
